@@ -111,3 +111,38 @@ fn ss_tcp<const N: usize>(spec: &Value) -> Result<Option<String>, String> {
     }
     Ok(None)
 }
+
+/// entry `ss_chunk_limit`: the real encoder writes `len` bytes; with chunks of at most `limit` bytes the stream needs at least
+/// ceil(T / limit) chunks of 34 bytes overhead each - fewer bytes on the wire mean some chunk exceeds the sender limit
+pub fn ss_chunk_limit(spec: &Value) -> Result<Option<String>, String> {
+    if spec["N"].as_u64() == Some(16) { chunk_limit::<16>(spec) } else { chunk_limit::<32>(spec) }
+}
+
+fn chunk_limit<const N: usize>(spec: &Value) -> Result<Option<String>, String> {
+    let kind = kind_of(spec["kind"].as_str().unwrap_or(""))?;
+    let len = spec["len"].as_u64().unwrap_or(0) as usize;
+    let limit = spec["limit"].as_u64().unwrap_or(0x3fff) as usize;
+    let client = spec["mode"].as_str() != Some("Server");
+    let context = sstcp::Context::<N>::new([7u8; N], vec![], kind, None);
+    let addr = Address::Socket("1.2.3.4:80".parse().unwrap());
+    let session = sstcp::Session::<N>::new(if client { Mode::Client } else { Mode::Server }, sstcp::Identity::default(), if client { Some(addr) } else { None });
+    let mut codec = sstcp::AEADCipherCodec::<N>::default();
+    let mut wire = BytesMut::new();
+    codec.encode(&context, &session, BytesMut::from(&vec![0x5a; len][..]), &mut wire).map_err(|e| e.to_string())?;
+    if kind.is_aead_2022() {
+        return Ok(None);
+    }
+    let total = len + if client { 7 } else { 0 };
+    let need = N + total + 34 * total.div_ceil(limit);
+    if wire.len() < need {
+        Ok(Some(format!(
+            "a write of {} bytes is emitted in {} bytes: with chunks of at most {} bytes at least {} are needed, so a payload chunk exceeds the sender limit of the AEAD-cipher specification",
+            len,
+            wire.len(),
+            limit,
+            need
+        )))
+    } else {
+        Ok(None)
+    }
+}
